@@ -1323,7 +1323,8 @@ def m_generic_fn_call(ex, c, a, m):
 def m_now(ex, c, a, m):
     # a fresh symbolic instant per call; compared only by equality
     ex.time_counter += 1
-    return Adt('SystemTime', None, [ex.fresh('now', 64)])
+    # contract of the clock: some instant after 2001-09-09 (1e9 s) and far below the i64 range of SystemTime
+    return Adt('SystemTime', None, [clock_reading(ex, 'now')])
 
 
 @model(r'<SystemTime as PartialEq>::(eq|ne)')
